@@ -72,12 +72,24 @@ func c10InQuick(l c10Letter) bool {
 }
 
 // c10Line builds the k-th user line with exactly n bytes, free of CR/LF.
-func c10Line(k, n int) string {
+func c10Line(k, n int) string { return c10ShapedLine("", k, n) }
+
+// c10ShapedLine: exactly n bytes that begin with (as much as fits of) the given text; the charge depends on
+// the length alone, whatever the line says.
+func c10ShapedLine(shape string, k, n int) string {
 	if n == 0 {
 		return ""
 	}
-	return string(rune('A'+k%26)) + strings.Repeat("a", n-1)
+	if shape == "" {
+		return string(rune('A'+k%26)) + strings.Repeat("a", n-1)
+	}
+	if n <= len(shape) {
+		return shape[:n]
+	}
+	return shape + strings.Repeat(string(rune('a'+k%26)), n-len(shape))
 }
+
+var c10Shapes = []string{"PASS ", "PASS", "pass ", "PRIVMSG #c :", "NICK ", "PONG :", "\x01", "QUIT :"}
 
 var c10RegLines = []string{"NICK me", "USER ident 12 * :Real Name"}
 
@@ -88,6 +100,7 @@ type c10Case struct {
 	Hist   []c10Letter // the user task's letters
 	Flood  bool        // initial cfg.Flood (false = protection on)
 	Toggle int         // p >= 1: cfg.Flood is flipped just before letter p is issued (1-based); 0 = never
+	Shape  string      // what the user lines begin with ("" = a letter and filler)
 	Delays []int64     // nil = no back-pressure; else Delays[k] is slept by the server after line k of the wire (0 = NICK, 1 = USER, 2.. = user lines) before it frees the pipe
 }
 
@@ -101,6 +114,9 @@ func (cs *c10Case) Text() string {
 		sb.WriteString(l.String())
 	}
 	sb.WriteString("]")
+	if cs.Shape != "" {
+		fmt.Fprintf(&sb, " lines-begin-with=%q", cs.Shape)
+	}
 	if cs.Flood {
 		sb.WriteString(" Flood=true")
 	}
@@ -129,6 +145,9 @@ func (cs *c10Case) Params() map[string]interface{} {
 	if cs.Delays != nil {
 		p["delays_ns"] = cs.Delays
 	}
+	if cs.Shape != "" {
+		p["shape"] = cs.Shape
+	}
 	return p
 }
 
@@ -136,6 +155,7 @@ func c10CaseFromParams(p map[string]interface{}) (*c10Case, error) {
 	cs := &c10Case{}
 	cs.Pass, _ = p["pass"].(string)
 	cs.Flood, _ = p["flood"].(bool)
+	cs.Shape, _ = p["shape"].(string)
 	if f, ok := p["toggle"].(float64); ok {
 		cs.Toggle = int(f)
 	}
@@ -212,7 +232,7 @@ func c10Exec(cs *c10Case) *c10Obs {
 				obs.FlipAt = int64(env.Now())
 			}
 			obs.Issue = append(obs.Issue, int64(env.Now()))
-			s.C.Raw(c10Line(p, l.Len))
+			s.C.Raw(c10ShapedLine(cs.Shape, p, l.Len))
 			obs.IssueRet = append(obs.IssueRet, int64(env.Now()))
 		}
 		vx.Sleep(c10Tail)
@@ -267,7 +287,7 @@ func c10Inputs(cs *c10Case, obs *c10Obs) []c10In {
 func c10Expected(cs *c10Case) []string {
 	exp := append([]string{}, c10RegLines...)
 	for p, l := range cs.Hist {
-		exp = append(exp, c10Line(p, l.Len))
+		exp = append(exp, c10ShapedLine(cs.Shape, p, l.Len))
 	}
 	return exp
 }
@@ -724,6 +744,31 @@ func c10Jobs(tier string) []Job {
 			}})
 		}
 	}
+	// ---- pass 1c: what the lines say must not matter: the same enumeration with lines that begin like commands
+	contentDepth := 3
+	if thorough {
+		contentDepth = 4
+	}
+	for _, shape := range c10Shapes {
+		for _, l1 := range quickAlpha {
+			shape, l1 := shape, l1
+			name := fmt.Sprintf("p1-content/%q/%s", shape, c10LetterName(l1))
+			jobs = append(jobs, Job{Name: name, Cost: 2, Run: func(jc *JobCtx) *JobResult {
+				e := NewEnum(name)
+				st := &c10Stats{}
+				c10Eval(e, st, &c10Case{Pass: "flat", Shape: shape, Hist: []c10Letter{l1}})
+				for _, l2 := range quickAlpha {
+					if !c10Walk([]c10Letter{l1, l2}, quickAlpha, contentDepth, func(h []c10Letter) bool {
+						c10Eval(e, st, &c10Case{Pass: "flat", Shape: shape, Hist: h})
+						return !stop(e, jc)
+					}) {
+						break
+					}
+				}
+				return c10Finish(e, st)
+			}})
+		}
+	}
 	// thorough: the full alphabet to depth 4, split by first letter and second gap
 	if thorough {
 		for _, l1 := range fullAlpha {
@@ -922,7 +967,7 @@ func init() {
 	Register(&Prop{
 		ID: "C10",
 		Rule: "A case is one session: a fresh client (created and connected at virtual time 0; NICK and USER are the first two lines of every history) and one user task issuing letters (gap, length) = Sleep(gap); Raw(length bytes); " +
-			"gaps {0,1s,2s,2s+1/120s,2.5s,6.25s,10s,60s}, lengths {0,1,60,120,510}. Pass 1: every history to depth 4 (quick) / 6 (thorough) over 4 gaps x 3 lengths, thorough also all 40 letters to depth 4, plus threshold probes landing the penalty on 10s-2ns..10s+2ns; " +
+			"gaps {0,1s,2s,2s+1/120s,2.5s,6.25s,10s,60s}, lengths {0,1,60,120,510}. Pass 1: every history to depth 4 (quick) / 6 (thorough) over 4 gaps x 3 lengths, thorough also all 40 letters to depth 4, the same to depth 3 (thorough 4) with lines that begin with PASS / pass / PRIVMSG #c : / NICK / PONG : / \\x01 / QUIT : instead of filler (pass 1c), plus threshold probes landing the penalty on 10s-2ns..10s+2ns; " +
 			"pass 2: breadth-first closure of the model's penalty values, all 40 letters from one shortest history per value (distinct = penalty values); pass 3: pass-1 histories to depth 3 (thorough 4) x every menu of socket drain delays {0,0.5s,3s,11s} per line; " +
 			"pass 4: histories to depth 3 with Flood=true, and with Flood flipped before each letter in both directions. Distinct = distinct (history, delays, flood) cases, except pass 2. transitions = wire lines whose write time was compared.",
 		Assumptions: []string{
